@@ -292,6 +292,14 @@ def fam_keepalive(rng, tier):
                 n += 1
                 out.append({"tid": "ka%d" % n, "conns": [{"events": ev, "pong": pong}], "run": {"ping_interval": I, "ping_timeout": T,
                             "ping_payload": rng.choice(["", "beat"])}, "horizon": (8 * I + 6 * T) * 1000, "pattern": pname})
+    # a writing thread that is held up after its bytes left (1 ms, 400 ms): the pong can be processed before the
+    # ping thread runs again - a responsive peer must still never be reported
+    for I, T in ((3, 1), (2, 1), (5, 2), (4, 3)):
+        for lat in (0, 1, T * 1000 - 2):
+            for delay in (1, 7):
+                n += 1
+                out.append({"tid": "ka%d" % n, "conns": [{"events": [], "pong": lat}], "run": {"ping_interval": I, "ping_timeout": T},
+                            "horizon": (6 * I + 3 * T) * 1000, "send_delay_ms": delay, "pattern": "late_send_return"})
     # interval without timeout: pings only; settings that must be refused
     for I in (1, 3):
         n += 1
@@ -339,8 +347,27 @@ def fam_line_preempt(rng, tier):
     return out
 
 
+def fam_keepalive_schedules(rng, tier):
+    """C16: interleavings of the ping thread with the reading loop, enumerated systematically at the
+    blocking primitives (preemption bound 1, thorough 2) for responsive and for silent peers."""
+    from .. import explore
+    out = []
+    bases = [
+        {"conns": [{"events": [], "pong": 0}], "run": {"ping_interval": 3, "ping_timeout": 1}, "horizon": 10500},
+        {"conns": [{"events": [[6000, ["text", "d"]]], "pong": 1000}], "run": {"ping_interval": 3, "ping_timeout": 2}, "horizon": 10500},
+        {"conns": [{"events": [], "pong": {"stop_after": 1, "latency": 0}}], "run": {"ping_interval": 3, "ping_timeout": 1}, "horizon": 16000},
+    ]
+    for bi, base in enumerate(bases):
+        k = 0
+        for prefix, _, choices in explore.explore(lambda s, base=base: (None, appworld.run_app(dict(base), schedule=s)[1].choices),
+                                                  bound=1 if tier == "quick" else 2, max_runs=120 if tier == "quick" else 1500):
+            k += 1
+            out.append(dict(base, tid="kas%d_%d" % (bi, k), schedule=list(prefix), kind="schedule"))
+    return out
+
+
 FAMILIES = {"C13": [("delivery", fam_delivery)], "C14": [("endings", fam_endings), ("line_preemption", fam_line_preempt)], "C15": [("reconnect", fam_reconnect), ("line_preemption_reconnect", lambda rng, tier: [x for x in fam_line_preempt(rng, tier) if x["tid"].startswith("lp2_")])],
-            "C16": [("keepalive", fam_keepalive)]}
+            "C16": [("keepalive", fam_keepalive), ("ping_thread_interleavings", fam_keepalive_schedules)]}
 
 
 def fam_common(rng, tier):
